@@ -40,6 +40,9 @@ var c14Ops = []string{
 	"web.message #1", "web.message nope", "web.html #1", "web.html nope", "web.source #1", "web.source nope", "web.attach #1", "web.attach nope",
 	"client.ListMailbox", "client.GetMessage #1", "client.GetMessage nope", "client.MarkSeen #1", "client.GetMessageSource #1", "client.GetMessageSource nope",
 	"client.DeleteMessage #1", "client.DeleteMessage nope", "client.PurgeMailbox", "client.header-methods",
+	// a client that resets the connection after the first byte of the body (environment fault):
+	// nothing may change, and the answers to every later request are checked as usual
+	"abort.list", "abort.get #1",
 }
 
 type c14Case struct {
@@ -185,6 +188,7 @@ func c14Exec(c *fw.Ctx, cas c14Case, from int) (key string, extend, nontrivial b
 		return 0
 	}
 
+	aborted := false // the last request was aborted by its client (hidden-state proxy in the key)
 	for si, oi := range cas.Seq {
 		check := si >= from
 		op := c14Ops[oi]
@@ -194,11 +198,25 @@ func c14Exec(c *fw.Ctx, cas c14Case, from int) (key string, extend, nontrivial b
 			ref = f[1]
 		}
 		log = append(log, "-- "+op)
+		aborted = false
 		vk := func(sym string) string { return f[0] + "|" + cls + "|" + sym }
 		switch f[0] {
 		case "deliver":
 			deliver()
 			nontrivial = true
+		case "abort.list", "abort.get":
+			path := api("rest")
+			if f[0] == "abort.get" {
+				id, _, _ := resolve(ref)
+				path += "/" + id
+			}
+			r := s.HTTPAbort("GET", path, 1)
+			log = append(log, fmt.Sprintf("GET %s (client aborts after 1 byte) -> %d", path, r.Status))
+			aborted = true
+			if check && r.Panic != nil {
+				fail(vk("panic"), fmt.Sprintf("handler panicked when the client went away: %v", r.Panic))
+			}
+			continue
 		case "rest.list":
 			r := do("GET", api("rest"), nil)
 			if !check {
@@ -500,7 +518,7 @@ func c14Exec(c *fw.Ctx, cas c14Case, from int) (key string, extend, nontrivial b
 			}
 		}
 	}
-	return fmt.Sprintf("%s|n%d", mo.Key(), ndeliv), extend, nontrivial
+	return fmt.Sprintf("%s|n%d|ab%v", mo.Key(), ndeliv, aborted), extend, nontrivial
 }
 
 func lenBuf(b interface{ Len() int }) int {
